@@ -17,8 +17,9 @@ Thread-local discipline (what the proofs need), per public method:
 * `waitActivation` / `wait_forActivation` : the wait loop on the `.act` side.
 * wait loop on side `m` : `mlk` ; then, holding the mutex: any number of flag loads; a load of `true` ends
   the loop (result true); `cwt` is allowed only after a load of `false` made since the mutex was last
-  (re)acquired; `cwk notified|spurious` re-enters the loop; `cwk timeout` (timed forms only) is followed by
-  the deciding load whose value is the result; `mul` ; return.
+  (re)acquired; `cwk notified|spurious` re-enters the loop; `cwk timeout` (timed forms only, thread still in
+  the wait set) and `cwk late` (timed forms only, thread already notified but the wait reports a time-out)
+  are followed by the deciding load whose value is the result; `mul` ; return.
 * `reset` : `mlk activeLock` ; `ald activated` ; false ⇒ `mul` ; return.  Else loop { `ald triggered`
   (acquire or stronger) ; true ⇒ leave ; false ⇒ `mul activeLock` ; the body of `trigger` ; `mlk activeLock` } ;
   `ast activated 0` (the **set-inactive** step) ; `mul activeLock` ; return.
@@ -64,7 +65,9 @@ inductive Ctx | top | inReset
 inductive Ord | acq | sc
   deriving DecidableEq, Repr
 
-inductive Wake | notified | spurious | timeout
+/-- `late`: the thread was notified, yet the timed wait reports a time-out (the deadline had passed when it
+got the mutex back) -/
+inductive Wake | notified | spurious | timeout | late
   deriving DecidableEq, Repr
 
 /-- ghost history entries -/
@@ -96,6 +99,7 @@ inductive Pc
   | wHold (k : WKind) (f : Bool)  -- holds the mutex; `f`: loaded `false` since (re)acquiring it
   | wSleep (k : WKind)            -- inside the cv wait
   | wTimedOut (k : WKind)         -- timed out, holds the mutex, before the deciding load
+  | wLate (k : WKind)             -- notified but reported as a time-out, holds the mutex, before the deciding load
   | wUnlock (k : WKind) (r : Bool) -- before `mul`, result `r`
   | wRet (k : WKind) (r : Bool)
   -- reset
@@ -230,6 +234,10 @@ def step (s : St) (t : Tid) (e : Ev) : Option St :=
               some ({ s with lock := updS s.lock m (some t), ws := updS s.ws m ((s.ws m).erase t) }.setPc t
                 (.wTimedOut k))
             else none
+        | .late =>
+            if t ∉ s.ws m ∧ k.timed = true then
+              some ({ s with lock := updS s.lock m (some t) }.setPc t (.wLate k))
+            else none
       else none
   | .wTimedOut k, .ld a .sc v =>
       if a = k.side ∧ v = s.flag a then some (s.setPc t (.wUnlock k v)) else none
@@ -250,6 +258,9 @@ def step (s : St) (t : Tid) (e : Ev) : Option St :=
   -- isActive / isTriggered
   | .oCalled a, .ld a' .sc v => if a' = a ∧ v = s.flag a then some (s.setPc t (.oRet a v)) else none
   | .oRet a v, .ret k r => if k = obsKind a ∧ r = v then some (s.setPc t .idle) else none
+  -- the deciding load after a late wake-up (kept last: the case numbering of the proofs follows this order)
+  | .wLate k, .ld a .sc v =>
+      if a = k.side ∧ v = s.flag a then some (s.setPc t (.wUnlock k v)) else none
   | _, _ => none
 
 def run (active : Bool) (es : List (Tid × Ev)) : Option St := runFrom step (init active) es
